@@ -32,7 +32,8 @@ for i in range(1, 21):
                 " (second round: A = two cooperating edits, B = multi-step / interplay trigger)" if BASE.endswith("2") else
                 " (third round: A = a change in a non-obvious place, B = a boundary case)" if BASE.endswith("3") else
                 " (fourth round: A = shows only through a non-default option / API door, B = shows only on a rare kind of input)" if BASE.endswith("4") else
-                " (fifth round: A = a change to data - configuration rows, tables, constants, defaults; B = a change to arithmetic that moves no printed number of the test files)" if BASE.endswith("5") else ""),
+                " (fifth round: A = a change to data - configuration rows, tables, constants, defaults; B = a change to arithmetic that moves no printed number of the test files)" if BASE.endswith("5") else
+                " (sixth round: A = a change about order - sort keys, iteration order, first/last match, order of steps; B = a change to fallbacks and error handling)" if BASE.endswith("6") else ""),
             "needs_to_manifest": notes.strip().split("\n\n")[0][:1200],
             "confirmed_by_me": {
                 "how": "tools/eval_seed.py: rsync copies of /repo outside /repo and /verif; patch applied with patch -p1; "
